@@ -99,9 +99,17 @@ def string_cases(rng, n):
     return out
 
 
-def string_program(expr, nbytes):
-    body = "\tvar s: [%d]char8 = %s;\n\tprint!(|s|, \"\\n\");\n" % (nbytes, expr)
-    body += "".join('\tprint!(s[%d] as u8, "\\n");\n' % i for i in range(nbytes))
+def string_program(expr, nbytes, form=0):
+    """the places a string literal can stand: a sized array variable, a slice argument (the array-to-slice
+    coercion of a literal), a constant, a slice variable"""
+    prints = "\tprint!(|s|, \"\\n\");\n" + "".join('\tprint!(s[%d] as u8, "\\n");\n' % i for i in range(nbytes))
+    if form == 1:
+        return "fn show(s: []char8)\n{\n" + prints + "}\nfn main() -> u8\n{\n\tshow(%s);\n\treturn: 0\n}\n" % expr
+    if form == 2:
+        return "const S: [%d]char8 = %s;\nfn main() -> u8\n{\n" % (nbytes, expr) + prints.replace("|s|", "|S|").replace("(s[", "(S[") + "\treturn: 0\n}\n"
+    if form == 3:
+        return "fn main() -> u8\n{\n\tvar s: []char8 = %s;\n" % expr + prints + "\treturn: 0\n}\n"
+    body = "\tvar s: [%d]char8 = %s;\n" % (nbytes, expr) + prints
     return "fn main() -> u8\n{\n" + body + "\treturn: 0\n}\n"
 
 
@@ -235,7 +243,7 @@ def run(tier):
         ssrcs.append((cid, "fn main() -> u8\n{\n\tvar c: char8 = '\\%s';\n\tprint!(c as u8, \"\\n\");\n\treturn: 0\n}\n" % k)); sexp[cid] = [str(v)]
     for i, (expr, exp) in enumerate(string_cases(rng, 150 if tier == "quick" else 6000)):
         cid = "s%d" % i
-        ssrcs.append((cid, string_program(expr, len(exp)))); sexp[cid] = [str(len(exp))] + [str(x) for x in exp]
+        ssrcs.append((cid, string_program(expr, len(exp), i % 4))); sexp[cid] = [str(len(exp))] + [str(x) for x in exp]
     impl2 = C.run_harness("exec", ssrcs, ck.work + "/str", timeout=1800)
     smism = 0
     for cid, src in ssrcs:
